@@ -1431,7 +1431,7 @@ func lemmaRoundtripMessage(e *Message) (e2 *Message, ok bool) {
 //@ spec fn eqSession(a *Session, b *Session) bool = a != nil && eqEnvelope(&a.Envelope, &b.Envelope) && a.State == b.State && a.Encryption == b.Encryption && a.Compression == b.Compression && a.Scheme == b.Scheme && eqReason(a.Reason, b.Reason) && eqSeqEnc(a.EncryptionOptions, b.EncryptionOptions) && eqSeqComp(a.CompressionOptions, b.CompressionOptions) && eqSeqScheme(a.SchemeOptions, b.SchemeOptions) && eqAuth(a.Authentication, b.Authentication)
 
 //@ lemma lemmaRoundtripNotification :: (e) (e2, ok)
-//@   props C01
+//@   props C01 C11
 //@   requires wfNotificationEnv(e)
 //@   ensures ok && eqNotification(e2, e)
 //@ lemma lemmaRoundtripRequest :: (e) (e2, ok)
@@ -1439,7 +1439,7 @@ func lemmaRoundtripMessage(e *Message) (e2 *Message, ok bool) {
 //@   requires wfRequest(e)
 //@   ensures ok && eqRequest(e2, e)
 //@ lemma lemmaRoundtripResponse :: (e) (e2, ok)
-//@   props C01
+//@   props C01 C11
 //@   requires wfResponseEnv(e)
 //@   ensures ok && eqResponse(e2, e)
 //@ lemma lemmaRoundtripSession :: (e) (e2, ok)
@@ -1552,7 +1552,7 @@ func lemmaRoundtripSession(e *Session) (e2 *Session, ok bool) {
 //@   requires wfMessage(e)
 //@   ensures ok && eqMessage(e2, e)
 //@ lemma lemmaReceiveNotification :: (e) (e2, ok)
-//@   props C01
+//@   props C01 C11
 //@   requires wfNotificationEnv(e)
 //@   ensures ok && eqNotification(e2, e)
 //@ lemma lemmaReceiveRequest :: (e) (e2, ok)
@@ -1560,7 +1560,7 @@ func lemmaRoundtripSession(e *Session) (e2 *Session, ok bool) {
 //@   requires wfRequest(e)
 //@   ensures ok && eqRequest(e2, e)
 //@ lemma lemmaReceiveResponse :: (e) (e2, ok)
-//@   props C01
+//@   props C01 C11
 //@   requires wfResponseEnv(e)
 //@   ensures ok && eqResponse(e2, e)
 //@ lemma lemmaReceiveSession :: (e) (e2, ok)
